@@ -291,3 +291,14 @@ def oracle_c05(case, lines, runner=None):
             if fail_first is None:
                 fails.append({'what': f'{kind} e{lab} failed although no operand failed', 'signature': 'c05-spurious-fail'}); break
     return fails[:3]
+
+
+def oracle_until_failed(case, lines, runner=None):
+    """run(until=event) must not return normally when that event failed and nobody handled the failure"""
+    if runner is None:
+        return []
+    for n in runner.notes:
+        if n[0] == 'until-event' and n[1] and n[2] is False and not n[4]:
+            return [{'what': f'run(until=e{n[5]}) returned normally although e{n[5]} failed and no waiter handled the failure',
+                     'signature': 'c02-until-failed-returned'}]
+    return []
